@@ -38,6 +38,7 @@ def strategy_(g):
         "b": g.pose(k, s=g.choice([s, 1.0])),
         "pt": g.pose(R.POINT_OF[k], s=g.choice([s, 1.0])),
     }
+    case["same_object"] = g.choice([False, False, True])
     if g.choice([False, False, False, True]):
         # two poses a few units apart at a large common magnitude (georeferenced coordinates), any rotation difference
         n = R.PDIM[k]
@@ -118,6 +119,12 @@ def check(case, ctx):
         ctx.event("S>1e3")
     if _run(case, ctx, a, b, pt, S_, ""):
         return
+    if case.get("same_object"):
+        # ONE pose object as both operands (p (+) p, p (-) p: two vertices initialised from one shared pose): the partial
+        # derivative with respect to the named operand, the other occurrence held fixed
+        ctx.event("same-object-as-both-operands")
+        if _run(case, ctx, a, a, pt, S_, " (the same object as both operands)"):
+            return
     # history: the same pose objects modified in place (poses are ndarrays; normalize() does exactly that) - the
     # Jacobians must follow the current contents, not anything remembered from the calls above
     for obj in (a, b, pt):
